@@ -146,7 +146,7 @@ var earlierStatus int
 // (the pkg/render renderers behind JSON, JSONP, XML keep a type that is already there - the other half of C19).
 var earlierCT string
 
-var callSiteNames = []string{"route-handler", "OnPanic-hook", "NotFound-handler", "aborting-global-middleware"}
+var callSiteNames = []string{"route-handler", "OnPanic-hook", "NotFound-handler", "aborting-global-middleware", "HandlerFunc-in-a-ServeMux"}
 
 func run(headers map[string]string, accept string, f func(c *rux.Context) error) result {
 	var res result
@@ -168,6 +168,7 @@ func run(headers map[string]string, accept string, f func(c *rux.Context) error)
 		res.nErr = len(c.Errors)
 	}
 	path := "/x"
+	var direct http.Handler
 	switch callSite {
 	case 1:
 		r.OnPanic = do
@@ -179,6 +180,9 @@ func run(headers map[string]string, accept string, f func(c *rux.Context) error)
 	case 3:
 		r.Use(func(c *rux.Context) { do(c); c.Abort() })
 		r.GET("/x", func(c *rux.Context) { c.WriteString("must not run") })
+	case 4:
+		// the handler is mounted as a plain http.Handler (HandlerFunc.ServeHTTP), outside any router
+		direct = rux.HandlerFunc(do)
 	default:
 		r.GET("/x", do)
 	}
@@ -189,6 +193,12 @@ func run(headers map[string]string, accept string, f func(c *rux.Context) error)
 	}
 	func() {
 		defer func() { res.pv = recover() }()
+		if direct != nil {
+			mux := http.NewServeMux()
+			mux.Handle("/x", direct)
+			mux.ServeHTTP(res.rec, req)
+			return
+		}
 		r.ServeHTTP(res.rec, req)
 	}()
 	// the header map belongs to the response's owner; an owner that edits the values in place (after copying what the
@@ -220,7 +230,7 @@ func jsonEqual(body []byte, want any) error {
 
 func propHelpers(t *rapid.T) {
 	ev.Case()
-	callSite = rapid.SampledFrom([]int{0, 0, 0, 1, 2, 3}).Draw(t, "callSite")
+	callSite = rapid.SampledFrom([]int{0, 0, 0, 1, 2, 3, 4}).Draw(t, "callSite")
 	earlierStatus = rapid.SampledFrom([]int{0, 0, 0, 202, 404, 500}).Draw(t, "earlierStatus")
 	defer func() { callSite, earlierStatus = 0, 0 }()
 	ev.Class("helper-called-from:" + callSiteNames[callSite])
